@@ -8,7 +8,7 @@ P=${1:-2}
 OUT=seeded/REGRESSION.txt
 TMP=$(mktemp -d /tmp/regress-XXXXXX)
 one() {
-  d="$1"; name=$(basename "$d"); prop=$(python3 -c "import json,re;print(re.split('[ ,]',json.load(open('$d/meta.json'))['breaks_property'])[0])")
+  d="$1"; name=$(basename "$d"); prop=$(python3 -c "import json,re;d=json.load(open('$d/meta.json'));print(d.get('check_with') or re.split('[ ,]',d['breaks_property'])[0])")
   note=$(python3 -c "import json;d=json.load(open('$d/meta.json'));print('(no longer breaks the property on HEAD, see meta.json)' if d.get('still_breaks_property_on_head') is False else '')")
   log="$TMP/$name.log"
   tools/mutant.sh "$d/patch.diff" "$prop" > "$log" 2>&1; rc=$?
